@@ -104,7 +104,7 @@ PROPERTIES = {
         "min_obligations": 2000,
     },
     "C17": {
-        "contracts": [align.SortAxis, align.TakeAxis, missing.CompressAxis, missing.FillNa, missing.SetNa, missing.DropNa1D],
+        "contracts": [align.SortAxis, align.TakeAxis, missing.CompressAxis, missing.FillNa, missing.SetNa, missing.DropNa1D, missing.DropNaND],
         "level": "proof",
         "min_obligations": 200,
     },
